@@ -268,6 +268,13 @@ pub async fn crash_history(ctx: &mut Ctx, root: &std::path::Path, tag: &str, sha
             if thorough && *l < 400 { for b in 0..*l as u64 { cuts.push(o + b); } }
         }
         cuts.retain(|c| *c >= *start && *c < end); cuts.sort(); cuts.dedup();
+        if thorough && cuts.len() > 90 {
+            // every byte of the small records was listed; keep an even sample (each reopen leaks threads
+            // and descriptors inside this process, see DESIGN 10.2e) — the boundaries stay below
+            let mut keep: Vec<u64> = (0..90).map(|i| cuts[i * cuts.len() / 90]).collect();
+            for (o, l) in bounds.iter().filter(|(o, _)| *o >= *start && *o < end) { keep.extend([*o, o + 4, o + 8, o + *l as u64 - 1]); }
+            keep.retain(|c| *c >= *start && *c < end); keep.sort(); keep.dedup(); cuts = keep;
+        }
         if !thorough && cuts.len() > 14 {
             let mut keep: Vec<u64> = (0..14).map(|i| cuts[i * cuts.len() / 14]).collect();
             // always: right after the last event (= start of the commit record), inside it, its last byte
@@ -369,7 +376,7 @@ pub fn run_crash(ctx: &mut Ctx) {
     let rt = tokio::runtime::Builder::new_multi_thread().worker_threads(4).enable_all().build().unwrap();
     let root = if std::path::Path::new("/dev/shm").is_dir() { tempfile::tempdir_in("/dev/shm").unwrap() } else { tempfile::tempdir().unwrap() };
     // shapes 0..3 are the directed ones (fresh database, after a rollover x2, packed segment): every run has them
-    let n = if ctx.thorough() { (60 / chunks()).max(6) } else { 10 };
+    let n = if ctx.thorough() { (60 / chunks()).max(4) } else { 10 };
     for i in 0..n as u64 { let shape = if i < 4 { i } else { 4 + ctx.rng.below(6) }; rt.block_on(crash_history(ctx, root.path(), &format!("{i}"), shape)); }
 }
 
